@@ -364,6 +364,43 @@ def items():
     add("def genSetTarget %s (sync : Obj → Obj) (self : Obj) (newtarget : Tgt) : Obj :=" % OP,
         lambda: T(base).function(_fn(mb.Targetable, "set_target"), {"self": "self", "new_target": "newtarget"}, ind=1), "self")
 
+    # ------------------------------------------------------------------ the plain transforms' constructors (base classes)
+    # `setH` / `setRot` = the object's own `_set_h_matrix` / `set_rotation_matrix` (dynamic dispatch as a parameter)
+    tl = mod("menpo.transform.homogeneous.translation")
+    CT = "{n d : Nat} (setH : HObj n d → HMat d → Bool → Bool → HObj n d)"
+    def ctor_stmts():
+        return [("$s._h_matrix = None", "s", "{s}"),
+                ("$s._set_h_matrix($h, copy=$c, skip_checks=$k)", "s", "(setH {s} {h} {c} {k})"),
+                ("Homogeneous.__init__($s, $h, copy=$c, skip_checks=$k)", "s", "(genHomogeneousCtor setH {s} {h} {c} {k})"),
+                ("Affine.__init__($s, $h, copy=$c, skip_checks=$k)", "s", "(genAffineCtor setH {s} {h} {c} {k})"),
+                ("Similarity.__init__($s, $h, copy=$c, skip_checks=$k)", "s", "(genSimilarityCtor setH {s} {h} {c} {k})"),
+                ("$s.set_rotation_matrix($v, skip_checks=$k)", "s", "(setRot {s} {v} {k})"),
+                ("$h[:-1, -1] = $v", "h", "(setTransCol {h} {v})")]
+    ctor = R(expr=[("np.asarray($x)", "{x}"), ("$v.shape[0]", "(vlen {v})"), ("np.eye($k)", "(one : Mat {k} {k})")],
+             stmt=[("$s._h_matrix = None", "s", "{s}"),
+                   ("$s._set_h_matrix($h, copy=$c, skip_checks=$k)", "s", "(setH {s} {h} {c} {k})"),
+                   ("Homogeneous.__init__($s, $h, copy=$c, skip_checks=$k)", "s", "(genHomogeneousCtor setH {s} {h} {c} {k})"),
+                   ("Affine.__init__($s, $h, copy=$c, skip_checks=$k)", "s", "(genAffineCtor setH {s} {h} {c} {k})"),
+                   ("Similarity.__init__($s, $h, copy=$c, skip_checks=$k)", "s", "(genSimilarityCtor setH {s} {h} {c} {k})"),
+                   ("$s.set_rotation_matrix($v, skip_checks=$k)", "s", "(setRot {s} {v} {k})"),
+                   ("$h[:-1, -1] = $v", "h", "(setTransCol {h} {v})")],
+             end="{self}")
+    HP = {"self": "self", "h_matrix": "hmatrix", "copy": "copy", "skip_checks": "skipchecks"}
+    for lean, cls_, in (("genHomogeneousCtor", hb.Homogeneous), ("genAffineCtor", aff.Affine), ("genSimilarityCtor", sim.Similarity)):
+        add("def %s %s (self : HObj n d) (hmatrix : HMat d) (copy skipchecks : Bool) : HObj n d :=" % (lean, CT),
+            lambda cls_=cls_: T(ctor).function(_fn(cls_, "__init__"), HP, ind=1), "HObj.blank")
+    add("def genTranslationCtor %s (self : HObj n d) (translation : Vec d) (skipchecks : Bool) : HObj n d :=" % CT,
+        lambda: T(ctor).function(_fn(tl.Translation, "__init__"), {"self": "self", "translation": "translation",
+                                                                    "skip_checks": "skipchecks"}, ind=1), "HObj.blank")
+    rctor = R(expr=[("$v.shape[0]", "(rowsOf {v})"), ("np.eye($k)", "(one : Mat {k} {k})")], stmt=ctor_stmts(), end="{self}")
+    add("def genRotationCtor %s (setRot : HObj n d → Mat d d → Bool → HObj n d) (self : HObj n d) (rotationmatrix : Mat d d) "
+        "(skipchecks : Bool) : HObj n d :=" % CT,
+        lambda: T(rctor).function(_fn(rot.Rotation, "__init__"), {"self": "self", "rotation_matrix": "rotationmatrix",
+                                                                   "skip_checks": "skipchecks"}, ind=1), "HObj.blank")
+
+    def skip_default(cls_):
+        return lean_bool(T(R()).defaults(_fn(cls_, "__init__")).get("skip_checks"))
+
     # ------------------------------------------------------------------ the homogeneous family: shared pieces
     def homog_init_stmt():
         # `HomogFamilyAlignment.__init__` is `Alignment.__init__` (the class adds no constructor of its own)
@@ -384,7 +421,8 @@ def items():
         pure_setter(tr.AlignmentTranslation)
         return R(expr=HOBJ + SHAPE,
                  stmt=[homog_init_stmt(),
-                       ("Translation.__init__($s, $v)", "s", "(HObj.setH {s} (translationH {v}))"),
+                       ("Translation.__init__($s, $v)", "s",
+                        "(genTranslationCtor plainSetH {s} {v} %s)" % skip_default(tr.Translation)),
                        ("$s.h_matrix[:-1, -1] = $v", "s", "(HObj.setH {s} (setTransCol ({s}).h {v}))")],
                  end="{self}")
     add("def genTranslationInit %s (self : HObj n d) (source target : Mat n d) : HObj n d :=" % HSIG,
@@ -421,7 +459,7 @@ def items():
             ("$s._build_alignment_h_matrix($a, $b)", "(genAffineBuildH {a} {b})", "bind")],
             stmt=[homog_init_stmt(),
                   ("Affine._set_h_matrix($s, $v, copy=$c, skip_checks=$k)", "s", "(HObj.setH {s} {v})"),
-                  ("Affine.__init__($s, $v, copy=False, skip_checks=True)", "s", "(genAffineSetH {s} {v} false true)"),
+                  ("Affine.__init__($s, $v, copy=False, skip_checks=True)", "s", "(genAffineCtor genAffineSetH {s} {v} false true)"),
                   ("$s._sync_target_from_state()", "s", "(genSyncTargetFromState HObj.ops {s})"),
                   ("$s._target = $v", "s", "(HObj.ops.setTarget {s} {v})")],
             ret="some ({e})", end="some {self}")
@@ -459,13 +497,12 @@ def items():
         pure_setter(rot.AlignmentRotation)
         _require(_provider(rot.AlignmentRotation, "set_rotation_matrix") is rot.AlignmentRotation,
                  "AlignmentRotation no longer overrides set_rotation_matrix")
-        d = T(R()).defaults(_fn(rot.Rotation, "__init__"))
-        _require(d.get("skip_checks") == "False", "default of Rotation.__init__(skip_checks) is %r" % d.get("skip_checks"))
         return R(expr=HOBJ + [
             ("optimal_rotation_matrix($a, $b, allow_mirror=$m)", "(genOptimalRotationMatrix ext {a} {b} {m})")],
             stmt=[homog_init_stmt(),
                   ("Rotation.set_rotation_matrix($s, $v, skip_checks=$k)", "s", "(HObj.setH {s} (setLinPart ({s}).h {v}))"),
-                  ("Rotation.__init__($s, $v)", "s", "(genRotationSetRotationMatrix ext (HObj.setH {s} one) {v} false)"),
+                  ("Rotation.__init__($s, $v)", "s",
+                   "(genRotationCtor plainSetH (genRotationSetRotationMatrix ext) {s} {v} %s)" % skip_default(rot.Rotation)),
                   ("$s._sync_target_from_state()", "s", "(genSyncTargetFromState HObj.ops {s})"),
                   ("$s._target = $v", "s", "(HObj.ops.setTarget {s} {v})"),
                   ("$s.allow_mirror = $v", "s", "(HObj.setAllowMirror {s} {v})")],
@@ -502,7 +539,7 @@ def items():
             ("procrustes_alignment($a, $b, rotation=$r, allow_mirror=$m)", "(genProcrustesAlignment ext {a} {b} {r} {m})"),
             ("$x.h_matrix", "{x}")],
             stmt=[homog_init_stmt(),
-                  ("Similarity.__init__($s, $v, copy=False, skip_checks=True)", "s", "(HObj.setH {s} {v})"),
+                  ("Similarity.__init__($s, $v, copy=False, skip_checks=True)", "s", "(genSimilarityCtor plainSetH {s} {v} false true)"),
                   ("$s._set_h_matrix($v, copy=False, skip_checks=True)", "s", "(HObj.setH {s} {v})"),
                   ("$s.rotation = $v", "s", "(HObj.setRotation {s} {v})"),
                   ("$s.allow_mirror = $v", "s", "(HObj.setAllowMirror {s} {v})")],
